@@ -18,7 +18,7 @@ RULE = ('Formulas of the C19 fragment (arithmetic, comparisons, Boolean, once/hi
         'period for the discrete monitor; for the dense monitor either the same samples or the sparser list with repeated values removed). '
         'Oracle (differential between the two interpretations): dense offline result read at k*P == discrete offline result at sample k '
         'for every k with k + h < n (h = horizon in samples). Lane wide: windows of up to 12 periods on traces of up to h + 24 samples made of '
-        'long monotone runs with a few breaks, ties and plateaus. Lane giant: windows of 200..1100 periods (around 256, 512, 1024) on mostly flat traces with isolated extreme samples. Lane units: the default unit is s, ms or us, the period is 1, 1/2 or 2 default units (written in any unit), the bounds '
+        'long monotone runs with a few breaks, ties and plateaus. Lane bigint: integer samples of the order of 1.7e18 (small differences compared with constants) in both interpretations and against a reference in exact integer arithmetic. Lane giant: windows of 200..1100 periods (around 256, 512, 1024) on mostly flat traces with isolated extreme samples. Lane units: the default unit is s, ms or us, the period is 1, 1/2 or 2 default units (written in any unit), the bounds '
         'are spelled with explicit units or bare (machinery of C08) and the time stamps are in the default unit. Lane online: past fragment, or bounded-future fragment after pastify() on both '
         'sides; the dense-time online monitor (fed everything at once, one sample per update, or in random pieces) read at k*P wherever its output '
         'covers == the k-th update of the discrete-time online monitor (from update h on after pastify). Non-trivial = >= 1 bounded operator, '
@@ -346,7 +346,45 @@ def giant_cases_(draw, tier):
     return c
 
 
+def check_bigint(case, prop='C19'):
+    """Integer samples beyond 2**53 in both interpretations (sampling period 1 s): dense offline at k == discrete offline
+    at sample k == the reference in exact integer arithmetic, for every k with k + h < n."""
+    from .. import refsem
+    from ..refsem import dt, Undefined
+    f = from_json(case['formula'])
+    vs = list(case['vars'])
+    tr = {v: [int(x) for x in case['trace'][v]] for v in vs}
+    n = len(tr[vs[0]])
+    labels = feature_labels(f, n) + ['integer-samples>2^53']
+    h = F.horizon(f) or 0
+    refsem.KEEP_INTEGERS = True
+    try:
+        ref = dt(f, tr, n)
+    except Undefined:
+        return DISCARD('undefined', labels)
+    finally:
+        refsem.KEEP_INTEGERS = False
+    text = 'out = ' + F.show(f)
+    from ..monitors import build, exc_outcome
+    try:
+        sd = build('dt_off', text, vs)
+        od = [p[1] for p in sd.evaluate(dict([('time', list(range(n)))] + [(v, list(tr[v])) for v in vs]))]
+        sc = build('ct_off', text, vs)
+        oc = sc.evaluate(*[[v, [[float(i), tr[v][i]] for i in range(n)]] for v in vs])
+    except Exception as e:  # noqa
+        o = exc_outcome(e)
+        return FAIL('exc:integer-samples:%s' % o[1], 'spec: %s\ntrace (integers): %s\nraised %s: %s at %s' % (text, tr, o[1], o[3], o[4]), labels)
+    ks = [k for k in range(n) if k + h < n]
+    for k in ks:
+        c = step_at(oc, float(k))
+        if c != ref[k] or (prop == 'C19' and od[k] != c):
+            return FAIL('integer-samples:dense-differs', 'spec: %s\ntrace (Python integers): %s\nat sample %d: dense %r, discrete %r, reference (exact integer arithmetic) %r\ndense result: %r' % (
+                text, tr, k, c, od[k], ref[k], oc), labels)
+    return PASS(len(ks) >= 1, labels)
+
+
 LANES = [
+    Lane('bigint', lambda tier: __import__('vlib.common', fromlist=['bigint_cases']).bigint_cases(dense=True), check_bigint, 500, 5000, None),
     Lane('giant', giant_cases_, check, 100, 1000, None),
     Lane('main', lambda tier: cases(tier), check, 5000, 80000, std_candidates),
     Lane('wide', lambda tier: wide_cases(tier), check, 1500, 20000, std_candidates),
